@@ -53,6 +53,9 @@ def fluid_case(draw):
         # the dataclass is mutable: after the first evaluation its fields are reassigned to these values
         "oil2": draw(st.one_of(st.none(), gens.oil_params())),
         "salinity2": draw(st.floats(0.5, 25.0)),
+        # "all Fluid parameter sets": also the nearly dead oils / dry-gas objects whose Standing bubble point is
+        # below atmospheric or negative (Fluid(400, 35, 0.65, 0) is the object the repository's own tests build)
+        "low_gor": draw(st.one_of(st.none(), st.none(), st.none(), st.none(), st.floats(0.0, 15.0), st.sampled_from([0, 1, 4, 0.0]))),
     }
 
 
@@ -118,10 +121,27 @@ def check_case(case) -> Result:
         o = case["oil"]
         T, api, sg, gor, sal = o["T"], o["api"], o["sg"], o["gor"], case["salinity"]
         tpc, ppc = case["tpc"], case["ppc"]
+        if case.get("low_gor") is not None:
+            gor = case["low_gor"]
+            res.labels["low_gor"] = True
         fl = Fluid(T, api, sg, gor, salinity=sal, water_saturation_initial=case["sw"])
         pb = float(lib("pressure_bubblepoint_Standing", O.pressure_bubblepoint_Standing, T, api, sg, gor))
         got_pb = float(lib("Fluid.pressure_bubblepoint", fl.pressure_bubblepoint))
-        _close(res, "C19/fluid-delegation", got_pb, pb, 1e-13, "pressure_bubblepoint")
+        _close(res, "C19/fluid-delegation", got_pb, pb, 1e-13, f"Fluid({T!r},{api!r},{sg!r},{gor!r}).pressure_bubblepoint")
+        if case.get("low_gor") is not None:
+            # the water and gas methods do not involve the GOR: they must work and delegate for such an object too
+            ps = np.array([15.0 + f * (min(30.0 * ppc, 15000.0) - 15.0) for f in case["fracs"]])
+            for name, call, want in [
+                ("water_FVF", lambda: fl.water_FVF(ps), [W.b_water_McCain(T, q) for q in ps]),
+                ("water_viscosity", lambda: fl.water_viscosity(ps), [W.viscosity_water_McCain(T, q, sal) for q in ps]),
+                ("gas_FVF", lambda: fl.gas_FVF(ps, tpc, ppc), [G.b_factor_DAK(T, q, tpc, ppc) for q in ps]),
+                ("gas_viscosity", lambda: fl.gas_viscosity(ps, tpc, ppc), [G.viscosity_Sutton(T, q, tpc, ppc, sg) for q in ps]),
+            ]:
+                if name.startswith("gas") and not (1.05 <= (T + 459.67) / (tpc + 459.67) <= 3.0):
+                    continue
+                _close(res, "C19/fluid-delegation", lib(f"Fluid.{name}", call), want, 1e-13, f"Fluid({T!r},{api!r},{sg!r},{gor!r},salinity={sal!r}).{name} on {list(ps)}")
+            res.nontrivial = True
+            return res
         if not (math.isfinite(pb) and pb > 50):
             res.skipped = "bubble point <= 50"
             return res
